@@ -368,11 +368,11 @@ theorem bodyBytes_length (key : Option Rfc6455.Key) (payload : List UInt8) :
 
 theorem recvChunk_pos : 0 < recvChunk := by decide
 
-/-- the chunked payload loop: succeeds exactly when the announced bytes are there, and never asks for more
-    memory than what has arrived plus one chunk (nor more than the announced length) -/
+/-- the growing payload loop: succeeds exactly when the announced bytes are there, and never asks for more
+    memory than twice what has arrived plus the first step (nor more than the announced length) -/
 theorem readPayload_spec : ∀ (fuel len got avail peak : Nat), got ≤ len → got ≤ avail → len - got < fuel →
     (readPayload fuel len got avail peak).1 = decide (len ≤ avail) ∧
-    (readPayload fuel len got avail peak).2 ≤ max peak (min len (avail + recvChunk)) ∧
+    (readPayload fuel len got avail peak).2 ≤ max peak (min len (2 * avail + recvChunk)) ∧
     peak ≤ (readPayload fuel len got avail peak).2 := by
   intro fuel
   induction fuel with
@@ -383,7 +383,11 @@ theorem readPayload_spec : ∀ (fuel len got avail peak : Nat), got ≤ len → 
     rw [readPayload]
     by_cases hlt : got < len
     · simp only [hlt, if_true]
-      by_cases hc : len - got < recvChunk
+      -- the step is positive and at most max(recvChunk, got)
+      generalize hstep : (if got < recvChunk then recvChunk else got) = step
+      have hs1 : 0 < step := by rw [← hstep]; split <;> omega
+      have hs2 : step ≤ recvChunk ∨ step ≤ got := by rw [← hstep]; split <;> omega
+      by_cases hc : len - got < step
       · simp only [hc, if_true]
         by_cases ha : avail < got + (len - got)
         · simp only [ha, if_true]
@@ -392,11 +396,11 @@ theorem readPayload_spec : ∀ (fuel len got avail peak : Nat), got ≤ len → 
           obtain ⟨h1, h2, h3⟩ := ih len (got + (len - got)) avail (max peak (got + (len - got))) (by omega) (by omega) (by omega)
           exact ⟨h1, by omega, by omega⟩
       · simp only [hc, if_false]
-        by_cases ha : avail < got + recvChunk
+        by_cases ha : avail < got + step
         · simp only [ha, if_true]
           refine ⟨by simp; omega, by omega, by omega⟩
         · simp only [ha, if_false]
-          obtain ⟨h1, h2, h3⟩ := ih len (got + recvChunk) avail (max peak (got + recvChunk)) (by omega) (by omega) (by omega)
+          obtain ⟨h1, h2, h3⟩ := ih len (got + step) avail (max peak (got + step)) (by omega) (by omega) (by omega)
           exact ⟨h1, by omega, by omega⟩
     · simp only [hlt, if_false]
       have : len = got := by omega
@@ -984,7 +988,7 @@ theorem parseExt_ok (b0 mlen : UInt8) (inp : List UInt8) (fin : Bool) (op : Nat)
         simp only [h16, h64, if_false]
         refine ⟨by omega, by omega, hr, trivial⟩
 
-theorem readFrame_no_fault (inp : List UInt8) : readFrame inp ≠ .fault := by
+theorem readFrame_no_fault (msgLen : Nat) (inp : List UInt8) : readFrame msgLen inp ≠ .fault := by
   unfold readFrame
   split
   · simp
@@ -997,16 +1001,46 @@ theorem readFrame_no_fault (inp : List UInt8) : readFrame inp ≠ .fault := by
         simp only
         split
         · simp
-        · cases masked
+        · split
           · simp
-          · simp only [if_true]
-            have := maskBuffer_isSome mask (List.take len.toNat rest) zeroSlack (by decide)
-            match hm : maskBuffer mask (List.take len.toNat rest) zeroSlack with
-            | some b => simp
-            | none => rw [hm] at this; simp at this
+          · cases masked
+            · simp
+            · simp only [if_true]
+              have := maskBuffer_isSome mask (List.take len.toNat rest) zeroSlack (by decide)
+              match hm : maskBuffer mask (List.take len.toNat rest) zeroSlack with
+              | some b => simp
+              | none => rw [hm] at this; simp at this
 
-theorem readFrame_ok_shorter (inp : List UInt8) (fin : Bool) (op : Nat) (buf rest : List UInt8)
-    (h : readFrame inp = .ok fin op buf rest) : rest.length + 2 ≤ inp.length := by
+theorem xorWordsAux_length (m : Nat) : ∀ (n : Nat) (mem acc r : List UInt8),
+    xorWordsAux m n mem acc = some r → r.length = acc.length + mem.length := by
+  intro n
+  induction n with
+  | zero => intro mem acc r h; simp [xorWordsAux, List.reverseAux_eq] at h; rw [← h]; simp
+  | succ n ih =>
+    intro mem acc r h
+    match mem, h with
+    | a :: b :: c :: d :: t, h =>
+      rw [xorWordsAux] at h
+      have := ih _ _ _ h
+      simp [pushWord] at this ⊢; omega
+    | [], h => simp [xorWordsAux] at h
+    | [_], h => simp [xorWordsAux] at h
+    | [_, _], h => simp [xorWordsAux] at h
+    | [_, _, _], h => simp [xorWordsAux] at h
+
+theorem maskBuffer_length (m : Nat) (data slack b : List UInt8) (h : maskBuffer m data slack = some b) :
+    b.length = data.length := by
+  unfold maskBuffer xorWords at h
+  simp only [Option.map_eq_some_iff] at h
+  obtain ⟨r, hr, hb⟩ := h
+  have := xorWordsAux_length _ _ _ _ _ hr
+  rw [← hb]; simp [this]
+
+/-- what the frame reader hands on: a suffix of the input, a buffer that fits an `int`-indexed array, and
+    — for data frames — one that still fits after being appended to the `msgLen` bytes already there -/
+theorem readFrame_ok_props (msgLen : Nat) (inp : List UInt8) (fin : Bool) (op : Nat) (buf rest : List UInt8)
+    (h : readFrame msgLen inp = .ok fin op buf rest) :
+    rest.length + 2 ≤ inp.length ∧ buf.length ≤ 2147483632 ∧ (op < 3 → msgLen + buf.length ≤ 2147483632) := by
   unfold readFrame at h
   split at h
   · simp at h
@@ -1017,15 +1051,36 @@ theorem readFrame_ok_shorter (inp : List UInt8) (fin : Bool) (op : Nat) (buf res
     · split at h
       · simp at h
       · next fin' opcode masked len mask rest' hp =>
-        have hr := (parseExt_ok b0 mlen r fin' opcode masked len mask rest' hp).2.2.1
+        obtain ⟨h0, hmax, hr, _⟩ := parseExt_ok b0 mlen r fin' opcode masked len mask rest' hp
         simp only at h
         split at h
         · simp at h
-        · split at h
+        · next hsum =>
+          split at h
           · simp at h
-          · simp only [Frame.ok.injEq] at h
-            obtain ⟨_, _, _, hrest⟩ := h
-            rw [← hrest]; simp; omega
+          · next hpay =>
+            have hn : len.toNat ≤ rest'.length := by
+              rw [readPayload_ok] at hpay; simpa using hpay
+            split at h
+            · simp at h
+            · next b hb =>
+              simp only [Frame.ok.injEq] at h
+              obtain ⟨_, hop, hbuf, hrest⟩ := h
+              have hblen : b.length = len.toNat := by
+                cases masked
+                · simp only [Bool.false_eq_true, if_false, Option.some.injEq] at hb
+                  rw [← hb]; simp; omega
+                · simp only [if_true] at hb
+                  rw [maskBuffer_length _ _ _ _ hb]; simp; omega
+              subst hop hbuf hrest
+              refine ⟨by simp; omega, by omega, fun h3 => ?_⟩
+              simp only [recvDataOps, recvMaxMsg, not_and, Int.not_lt] at hsum
+              have := hsum h3
+              omega
+
+theorem readFrame_ok_shorter (msgLen : Nat) (inp : List UInt8) (fin : Bool) (op : Nat) (buf rest : List UInt8)
+    (h : readFrame msgLen inp = .ok fin op buf rest) : rest.length + 2 ≤ inp.length :=
+  (readFrame_ok_props msgLen inp fin op buf rest h).1
 
 /-- one `receive()` on any input: no fault, nothing is un-read, and it either closes or consumes input -/
 theorem recvLoop_progress : ∀ (fuel : Nat) (c : Conn) (msg : List UInt8) (pm : Bool), c.fault = false →
@@ -1041,9 +1096,9 @@ theorem recvLoop_progress : ∀ (fuel : Nat) (c : Conn) (msg : List UInt8) (pm :
     · simp [hf]
     · split
       · simp [hf]
-      · next hrf => exact absurd hrf (readFrame_no_fault _)
+      · next hrf => exact absurd hrf (readFrame_no_fault _ _)
       · next fin opcode buffer rest hrf =>
-        have hsh := readFrame_ok_shorter _ _ _ _ _ hrf
+        have hsh := readFrame_ok_shorter _ _ _ _ _ _ hrf
         simp only
         split
         · split
@@ -1112,6 +1167,126 @@ theorem receiveAll_closes : ∀ (fuel : Nat) (c : Conn) (acc : List (List UInt8)
       · exact Or.inr h1
       · exact Or.inl (by omega)
 
+/-! ## fuel never runs out; results fit an `int` -/
+
+/-- **fuel is irrelevant**: `receive()`'s loop started with more fuel than input bytes never runs out of it -/
+theorem recvLoop_fuel : ∀ (fuel : Nat) (c : Conn) (msg : List UInt8) (pm : Bool), c.inp.length < fuel →
+    recvLoop fuel c msg pm = recvLoop (fuel + 1) c msg pm := by
+  intro fuel
+  induction fuel with
+  | zero => intro c msg pm h; omega
+  | succ fuel ih =>
+    intro c msg pm hlt
+    rw [recvLoop, recvLoop]
+    split
+    · rfl
+    · split
+      · rfl
+      · rfl
+      · next fin opcode buffer rest hrf =>
+        have hsh := readFrame_ok_shorter _ _ _ _ _ _ hrf
+        have hr : ∀ c' : Conn, c'.inp = rest → ∀ m p, recvLoop fuel c' m p = recvLoop (fuel + 1) c' m p :=
+          fun c' hc' m p => ih c' m p (by rw [hc']; omega)
+        simp only
+        split
+        · split
+          · rfl
+          · exact hr _ rfl _ _
+        · split
+          · rfl
+          · split
+            · rfl
+            · apply hr
+              split
+              · split <;> rfl
+              · rfl
+
+theorem closed_eta (c : Conn) (h : c.closed = true) : { c with closed := true } = c := by
+  cases c; simp at h; simp [h]
+
+/-- … and so is the fuel of the application loop -/
+theorem receiveAll_fuel : ∀ (fuel : Nat) (c : Conn) (acc : List (List UInt8)), c.fault = false →
+    (c.inp.length < fuel ∨ c.closed = true) → receiveAll fuel c acc = receiveAll (fuel + 1) c acc := by
+  intro fuel
+  induction fuel with
+  | zero =>
+    intro c acc _ h
+    rcases h with h | h
+    · omega
+    · rw [receiveAll, receiveAll]
+      simp [Conn.isClosed, h, closed_eta c h]
+  | succ fuel ih =>
+    intro c acc hf h
+    conv => lhs; rw [receiveAll]
+    conv => rhs; rw [receiveAll]
+    split
+    · rfl
+    · next hcl =>
+      have hopen : c.closed = false := by
+        cases hc : c.closed with
+        | false => rfl
+        | true => simp [Conn.isClosed, hc] at hcl
+      have hlt : c.inp.length < fuel + 1 := by
+        rcases h with h | h
+        · exact h
+        · rw [hopen] at h; exact absurd h (by simp)
+      have hp := recvLoop_progress (c.inp.length + 1) c [] false hf
+      simp only [receive]
+      apply ih _ _ hp.1
+      rcases hp.2.2 (by omega) with h1 | h1
+      · exact Or.inr h1
+      · exact Or.inl (by omega)
+
+/-- whatever the peer sends, no `receive()` result is longer than the library's array limit -/
+theorem recvLoop_bounded : ∀ (fuel : Nat) (c : Conn) (msg : List UInt8) (pm : Bool), msg.length ≤ 2147483632 →
+    (recvLoop fuel c msg pm).1.length ≤ 2147483632 := by
+  intro fuel
+  induction fuel with
+  | zero => intro c msg pm h; simpa [recvLoop] using h
+  | succ fuel ih =>
+    intro c msg pm hm
+    rw [recvLoop]
+    split
+    · exact hm
+    · split
+      · exact hm
+      · exact hm
+      · next fin opcode buffer rest hrf =>
+        obtain ⟨_, hb, hs⟩ := readFrame_ok_props _ _ _ _ _ _ hrf
+        simp only
+        split
+        · next hop =>
+          have : (msg ++ buffer).length ≤ 2147483632 := by
+            have := hs (by omega); simpa using this
+          split
+          · exact this
+          · exact ih _ _ _ this
+        · split
+          · split
+            · simp; omega
+            · exact hm
+          · split
+            · exact hm
+            · exact ih _ _ _ hm
+
+theorem receiveAll_bounded : ∀ (fuel : Nat) (c : Conn) (acc : List (List UInt8)),
+    (∀ m ∈ acc, m.length ≤ 2147483632) → ∀ m ∈ (receiveAll fuel c acc).1, m.length ≤ 2147483632 := by
+  intro fuel
+  induction fuel with
+  | zero => intro c acc h m hm; simp [receiveAll] at hm; exact h m hm
+  | succ fuel ih =>
+    intro c acc h
+    rw [receiveAll]
+    split
+    · intro m hm; simp at hm; exact h m hm
+    · have hrecv : (receive c).1.length ≤ 2147483632 := by
+        unfold receive; exact recvLoop_bounded _ _ [] false (Nat.zero_le _)
+      apply ih
+      intro m hm
+      rcases List.mem_cons.mp hm with h1 | h1
+      · rw [h1]; exact hrecv
+      · exact h m h1
+
 /-! ## library sender → wire -/
 
 /-- the keys a client-role sender draws for successive non-empty messages -/
@@ -1177,7 +1352,9 @@ theorem singleMsgs_fit (isClient : Bool) (msgs : List (Nat × List UInt8)) : ∀
     · simp only [hp, if_true] at hm; exact ih rng hrest m hm
     · simp only [hp, if_false, List.mem_cons] at hm
       rcases hm with rfl | hm
-      · refine ⟨⟨hf (t, p) (List.mem_cons_self ..), fun x hx => by simp at hx⟩, fun f hf' => by simp at hf'⟩
+      · refine ⟨⟨hf (t, p) (List.mem_cons_self ..), fun x hx => by simp at hx⟩, fun f hf' => by simp at hf', ?_⟩
+        have := hf (t, p) (List.mem_cons_self ..)
+        simpa [Fits, Rfc6455.Msg.payload] using this
       · exact ih _ hrest m hm
 
 /-! ## frames are self-delimiting; a frame cut short is not delivered -/
@@ -1268,8 +1445,8 @@ theorem parseExt_append (b0 mlen : UInt8) (inp more : List UInt8) (fin : Bool) (
       rw [e1, e2]
 
 /-- frames are self-delimiting: what `readFrame` returns does not depend on the bytes after the frame -/
-theorem readFrame_append (inp more : List UInt8) (fin : Bool) (op : Nat) (buf rest : List UInt8)
-    (h : readFrame inp = .ok fin op buf rest) : readFrame (inp ++ more) = .ok fin op buf (rest ++ more) := by
+theorem readFrame_append (msgLen : Nat) (inp more : List UInt8) (fin : Bool) (op : Nat) (buf rest : List UInt8)
+    (h : readFrame msgLen inp = .ok fin op buf rest) : readFrame msgLen (inp ++ more) = .ok fin op buf (rest ++ more) := by
   unfold readFrame at h
   split at h
   · simp at h
@@ -1284,38 +1461,65 @@ theorem readFrame_append (inp more : List UInt8) (fin : Bool) (op : Nat) (buf re
         simp only at h
         split at h
         · simp at h
-        · next hlen =>
-          have hn : len.toNat ≤ rest'.length := by omega
-          have hr : (r ++ more).isEmpty = false := by
-            cases r with
-            | nil => simp at hne
-            | cons a t => rfl
-          show readFrame (b0 :: mlen :: (r ++ more)) = _
-          unfold readFrame
-          simp only [hr, parseExt_append b0 mlen r more fin' opcode masked len mask rest' hp]
-          rw [if_neg (by simp), if_neg (by simp; omega), take_append_ge _ rest' more hn, drop_append_ge _ rest' more hn]
+        · next hsum =>
           split at h
           · simp at h
-          · next b hb =>
-            simp only [Frame.ok.injEq] at h
-            obtain ⟨h1, h2, h3, h4⟩ := h
-            subst h1 h2 h3 h4
-            rfl
+          · next hpay =>
+            have hn : len.toNat ≤ rest'.length := by
+              rw [readPayload_ok] at hpay; simpa using hpay
+            have hr : (r ++ more).isEmpty = false := by
+              cases r with
+              | nil => simp at hne
+              | cons a t => rfl
+            show readFrame msgLen (b0 :: mlen :: (r ++ more)) = _
+            unfold readFrame
+            simp only [hr, parseExt_append b0 mlen r more fin' opcode masked len mask rest' hp]
+            rw [if_neg (by simp), if_neg hsum, if_neg (by rw [readPayload_ok]; simp; omega),
+              take_append_ge _ rest' more hn, drop_append_ge _ rest' more hn]
+            split at h
+            · simp at h
+            · next b hb =>
+              simp only [Frame.ok.injEq] at h
+              obtain ⟨h1, h2, h3, h4⟩ := h
+              subst h1 h2 h3 h4
+              rfl
+
+/-- the bytes already accumulated can only turn an accepted frame into "close" -/
+theorem readFrame_mono (m : Nat) (inp : List UInt8) : readFrame m inp = .close ∨ readFrame m inp = readFrame 0 inp := by
+  unfold readFrame
+  split
+  · exact Or.inl rfl
+  · exact Or.inl rfl
+  · split
+    · exact Or.inl rfl
+    · split
+      · exact Or.inl rfl
+      · next fin opcode masked len mask rest _ =>
+        simp only
+        by_cases hm : opcode < recvDataOps ∧ len > (recvMaxMsg : Int) - (m : Int)
+        · exact Or.inl (by rw [if_pos hm])
+        · have h0 : ¬ (opcode < recvDataOps ∧ len > (recvMaxMsg : Int) - ((0 : Nat) : Int)) := by
+            intro ⟨h1, h2⟩; apply hm; exact ⟨h1, by omega⟩
+          exact Or.inr (by rw [if_neg hm, if_neg h0])
 
 /-- **A frame cut short is never delivered**: for every proper prefix of an RFC frame the frame reader
-    answers "close" — no buffer, no garbage. -/
+    answers "close" — no buffer, no garbage — whatever has been accumulated before. -/
 theorem truncated_frame_close (fin : Bool) (op : Nat) (hop : op < 16) (key : Option Rfc6455.Key) (p : List UInt8)
-    (hl : p.length ≤ 2147483632) (k : Nat) (hk : k < (Rfc6455.frame fin op key p).length) :
-    readFrame ((Rfc6455.frame fin op key p).take k) = .close := by
-  cases hr : readFrame ((Rfc6455.frame fin op key p).take k) with
+    (hl : p.length ≤ 2147483632) (k : Nat) (hk : k < (Rfc6455.frame fin op key p).length) (msgLen : Nat) :
+    readFrame msgLen ((Rfc6455.frame fin op key p).take k) = .close := by
+  rcases readFrame_mono msgLen ((Rfc6455.frame fin op key p).take k) with h | h
+  · exact h
+  rw [h]
+  cases hr : readFrame 0 ((Rfc6455.frame fin op key p).take k) with
   | close => rfl
-  | fault => exact absurd hr (readFrame_no_fault _)
+  | fault => exact absurd hr (readFrame_no_fault _ _)
   | ok f o b rest =>
     exfalso
-    have happ := readFrame_append _ ((Rfc6455.frame fin op key p).drop k) f o b rest hr
+    have happ := readFrame_append 0 _ ((Rfc6455.frame fin op key p).drop k) f o b rest hr
     rw [List.take_append_drop] at happ
     by_cases hsp : p ≠ [] ∨ key.isSome = true
-    · have hfull := readFrame_frame fin op hop key p hl [] (by rcases hsp with h | h; exact Or.inl h; exact Or.inr (Or.inl h))
+    · have hfull := readFrame_frame fin op hop key p hl [] (by rcases hsp with h | h; exact Or.inl h; exact Or.inr (Or.inl h)) 0
+        (fun _ => by omega)
       rw [List.append_nil] at hfull
       rw [hfull] at happ
       simp only [Frame.ok.injEq] at happ
